@@ -91,9 +91,12 @@ def run(ctx, b, broken):
                 bad = f"generic_visit visited {len(ev)} nodes, {size} reachable"
         if not bad:
             target = ctx.rng.choice(list(cfgd))
-            ev = [e.split(US) for e in impl_visit(node, {target: 2}, c_ast).split(RS)]
-            if any((c == target) != (flag == "1") for c, flag in ev) or len(ev) != size:
-                bad = f"visit_{target} did not intercept exactly the {target} nodes"
+            for vmode in (0, 1, 2):
+                hset = {target, ctx.rng.choice(list(cfgd))}
+                ev = [e.split(US) for e in impl_visit(node, {c: 2 for c in sorted(hset)}, c_ast, vmode).split(RS)]
+                if any((c in hset) != (flag == "1") for c, flag in ev) or len(ev) != size:
+                    bad = f"visit_X for X in {sorted(hset)} did not intercept exactly the nodes of those classes (visitor usage mode {vmode})"
+                    break
         if not bad:
             flat = json.dumps(v)
             if "\\n" not in flat and "\\r" not in flat and "\\u2028" not in flat:
@@ -113,6 +116,8 @@ def run(ctx, b, broken):
                 ("iter", " ".join(map(str, [11] + e)), impl_iter(node)),
                 ("show", " ".join(map(str, [12] + flags + e)), impl_show(node, *map(bool, flags))),
                 ("visit", " ".join(map(str, [14] + hreq + e)), impl_visit(node, hs, c_ast)),
+                ("visit (derived visitor class after its base class was used)", " ".join(map(str, [14] + hreq + e)), impl_visit(node, hs, c_ast, 1)),
+                ("visit (same instance, second traversal)", " ".join(map(str, [14] + hreq + e)), impl_visit(node, hs, c_ast, 2)),
             ]
             for what, req, io_ in pairs:
                 mo = model.raw(req)
